@@ -43,6 +43,7 @@ class LifeInterp(FinamInterp):
         self.memory_at_first_connect = None
         self.slot_finalized = []
         self.dirs_made = []  # (path, some component has connected already)
+        self.updates = []  # (component, {name: (time, finished)} before the update) for every update the driver performs
 
     # ----- externals nobody looks into
     def decide(self, cond, node):
@@ -126,6 +127,19 @@ class LifeInterp(FinamInterp):
             else:
                 new = AFTER[phase]
             if phase == "update":
+                comps = getattr(self, "comps", {})
+                self.updates.append((comp.label, {k: (v.fields["time"], v.fields["status"] == _st("FINISHED")) for k, v in comps.items()}))
+                if len(self.updates) > 300:
+                    raise AnalysisError("more than 300 updates in a scripted run")
+                # scripted dependencies: the components this one lags behind are advanced first (what the real dependency
+                # walk does for linked components; the stand-ins have no slots)
+                target = comp.fields["time"] + sc.get("step", 1)
+                for d in sc.get("deps", ()):
+                    dep, dsc = comps[d], self.script[d]
+                    while dep.fields["time"] < target and dep.fields["status"] != _st("FINISHED"):
+                        dep.fields["time"] = dep.fields["time"] + dsc.get("step", 1)
+                        fin = dsc.get("finish_at")
+                        dep.fields["status"] = _st("FINISHED" if fin is not None and dep.fields["time"] >= fin else "UPDATED")
                 comp.fields["time"] = comp.fields["time"] + sc.get("step", 1)
                 if sc.get("finish_at") is not None and comp.fields["time"] >= sc["finish_at"]:
                     new = "FINISHED"  # the component declares itself finished
@@ -158,6 +172,7 @@ def _drive(repo, script, end=6, timed=True, connect_twice=False, dangling_input=
     comp_cls = repo.cls("Composition")
     comps = [_comp(n, script[n].get("_t0", 0)) for n in script]
     it = LifeInterp(repo, script)
+    it.comps = {c.label: c for c in comps}
     it.max_loop = 1000
     if not timed:
         for c in comps:
@@ -287,6 +302,12 @@ def r06t_trace(repo, sink):
         sink.check(outcome == "FinamConnectError" and "connect" not in seq, "R06", "life-trace:validated-before-connect", run,
                    ok="an invalid composition (unconnected input) is refused with FinamConnectError before any component connects",
                    bad=f"composition with an unconnected input: outcome {outcome}, life-cycle calls {seq}")
+        it, outcome = _drive(repo, {"A": dict(connect_calls=1)}, timed=False, dangling_input=True)
+        seq = [p for _c, p in it.trace]
+        sink.check(outcome == "FinamConnectError" and "connect" not in seq, "R06", "life-trace:validated-before-connect:no-time-components", run,
+                   ok="also without time components an invalid composition is refused with FinamConnectError before any component connects",
+                   bad=f"composition without time components and with an unconnected input: outcome {outcome}, life-cycle calls {seq} "
+                       "(validation must not depend on how the start time is determined)")
     except (AnalysisError, Undecided) as exc:
         sink.unknown("R06", "life-trace:special", run, f"outside vocabulary: {exc}")
 
